@@ -86,6 +86,70 @@ Section Crash.
         end
     | PcDone _ => None
     end.
+
+  (* ---------- a deliberately broken variant, kept to show what the unique O_EXCL temp name is for ----------
+     StoreChunk with ONE temp name per chunk id, opened with O_CREAT|O_TRUNC (".tmp-cacnk." ++ hex id), and a
+     rename that fails with ENOENT taken for success.  Same program counters; the candidate list is unused. *)
+  Definition create_trunc (p : path) : node -> res node :=
+    upd p (fun o => match o with
+                    | None => Ok (Some (File meta0 []))
+                    | Some (File m _) => Ok (Some (File m []))
+                    | Some (Dir _ _) => Err EISDIR
+                    | Some (Symlink _ _) => Err EINVAL
+                    end).
+  Definition shared_suffix (i : nat) : bytes := 46%N :: hex_id (wd_id (wd i)).
+
+  Definition step_shared (s : cstate) (t : nat * action) : option cstate :=
+    let (fs, pcs) := s in
+    let (i, a) := t in
+    let b := wd_obj (wd i) in
+    let r := shared_suffix i in
+    let go fs' pc := Some (fs', set_pc pcs i pc) in
+    match pcs i with
+    | PcEnsure [] => go fs (PcCreate [])
+    | PcEnsure (q :: todo) =>
+        match ensure_dir q fs with
+        | Ok fs' => go fs' (PcEnsure todo)
+        | Err e => go fs (PcDone (Some e))
+        end
+    | PcCreate _ =>
+        match create_trunc (w_tmp i r) fs with
+        | Ok fs' => go fs' (PcWrite r 0)
+        | Err e => go fs (PcDone (Some e))
+        end
+    | PcWrite _ w =>
+        match a with
+        | AFail => go fs (PcFailClose r)
+        | ANext k =>
+            if length b <=? w then go fs (PcClose r)
+            else
+              let w' := Nat.min (w + S k) (length b) in
+              (* the file offset is w: the bytes land at w.. whatever the file holds by now *)
+              match lookup (w_tmp i r) fs with
+              | Some (File m cur) =>
+                  match write_file (w_tmp i r) (firstn w cur ++ repeat 0%N (w - length cur) ++ firstn (w' - w) (skipn w b)
+                                                ++ skipn w' cur) fs with
+                  | Ok fs' => go fs' (PcWrite r w')
+                  | Err e => go fs (PcDone (Some e))
+                  end
+              | _ => go fs (PcWrite r w')       (* unlinked/renamed away: the write goes to the old inode *)
+              end
+        end
+    | PcClose _ => go fs (PcRename r)
+    | PcRename _ =>
+        match rename (w_tmp i r) (w_final i) fs with
+        | Ok fs' => go fs' (PcDone None)
+        | Err ENOENT => go fs (PcDone (match lookup (w_final i) fs with Some _ => None | None => Some ENOENT end))
+        | Err e => go fs (PcDone (Some e))
+        end
+    | PcFailClose _ => go fs (PcFailRemove r)
+    | PcFailRemove _ =>
+        match remove (w_tmp i r) fs with
+        | Ok fs' => go fs' (PcDone (Some EIO))
+        | Err _ => go fs (PcDone (Some EIO))
+        end
+    | PcDone _ => None
+    end.
 End Crash.
 
 (* The schedule of one writer that runs alone without faults, n steps, every write() transferring
